@@ -114,6 +114,32 @@ def spec_subsumes(a, b):
 
 def spec_identical(a, b): return spec_subsumes(a, b) and spec_subsumes(b, a)
 
+# The known deviations of the unchanged code, as variants of the transcription.  They are used ONLY to classify an oracle failure
+# (finding_key) and to keep generated histories out of a known finding's input class; the oracle itself uses no variant.
+def hi_bits(r): return r[W] >> 22
+def v_subsumes(a, b, variant):
+    if not spec_subsumes(a, b): return False
+    if variant == "undefined-wildcard-bits" and hi_bits(b) & ~hi_bits(a): return False
+    return True
+def v_identical(a, b, variant):
+    if not (v_subsumes(a, b, variant) and v_subsumes(b, a, variant)): return False
+    if variant == "host-bits-under-prefix":
+        if src_ign(a) < 32 and a[NW_SRC] != b[NW_SRC]: return False
+        if dst_ign(a) < 32 and a[NW_DST] != b[NW_DST]: return False
+    return True
+def v_overlaps(a, b, variant):
+    if variant == "overlap-not-detected": return spec_subsumes(a, b) or spec_subsumes(b, a)
+    return spec_overlaps(a, b)
+def plain_subsumes(a, b):
+    """`a` decoded without the flow-mod normalisation: every field whose wildcard bit is clear is compared"""
+    for f in ALLF:
+        if not wild(a, f) and not (significant(b, f) and fval(a, f) == fval(b, f)): return False
+    for f, ka, kb in ((NW_SRC, ign_src(a), src_ign(b)), (NW_DST, ign_dst(a), dst_ign(b))):
+        if kb > ka: return False
+        if ka < 32 and a[f] >> ka != b[f] >> ka: return False
+    return True
+VARIANTS = ["overlap-not-detected", "host-bits-under-prefix", "undefined-wildcard-bits", "stats-request-not-unwired"]
+
 def spec_overlaps(a, b):
     """some 12-tuple matches both"""
     for f in ALLF:
@@ -126,8 +152,8 @@ def spec_overlaps(a, b):
 def flow_rank(f): return spec_rank(f["prio"], f["m"])
 def has_output(f, port): return any(a[0] == 0 and a[1] == port for a in f["acts"])
 def port_ok(f, out_port): return out_port == NONE or has_output(f, out_port)
-def selected(f, m, prio, strict):
-    return (spec_identical(f["m"], m) and f["prio"] == prio) if strict else spec_subsumes(m, f["m"])
+def selected(f, m, prio, strict, variant=None):
+    return (v_identical(f["m"], m, variant) and f["prio"] == prio) if strict else v_subsumes(m, f["m"], variant)
 def dur(now, f): return [(now - f["t0"]) // 1000, (now - f["t0"]) % 1000 * 1000000]
 def removed_of(now, reason, f):
     ds, dn = dur(now, f)
@@ -136,7 +162,7 @@ def removed_of(now, reason, f):
 def notifications(now, reason, fs): return [removed_of(now, reason, f) for f in fs if f["flags"] & SEND_FLOW_REM]
 
 class SpecTable:
-    def __init__(self, now, cap): self.flows, self.now, self.cap = [], now, cap
+    def __init__(self, now, cap, variant=None): self.flows, self.now, self.cap, self.variant = [], now, cap, variant
     def add(self, op):
         fl = op["flags"]
         if fl & EMERG:
@@ -145,21 +171,21 @@ class SpecTable:
             return [{"k": "err", "t": 3, "c": 0}]
         f = {"m": op["m"], "prio": op["prio"], "acts": op["acts"], "cookie": op["cookie"], "flags": fl, "idle": op["idle"], "hard": op["hard"],
              "t0": self.now, "tu": self.now, "pk": 0, "by": 0}
-        if fl & CHECK_OVERLAP and any(flow_rank(g) == flow_rank(f) and spec_overlaps(g["m"], f["m"]) for g in self.flows):
+        if fl & CHECK_OVERLAP and any(flow_rank(g) == flow_rank(f) and v_overlaps(g["m"], f["m"], self.variant) for g in self.flows):
             return [{"k": "err", "t": 3, "c": 1}]
-        rest = [g for g in self.flows if not (spec_identical(g["m"], op["m"]) and g["prio"] == op["prio"])]
+        rest = [g for g in self.flows if not (v_identical(g["m"], op["m"], self.variant) and g["prio"] == op["prio"])]
         if len(rest) >= self.cap: return [{"k": "err", "t": 3, "c": 0}]
         k = 0
         while k < len(rest) and flow_rank(rest[k]) > flow_rank(f): k += 1
         self.flows = rest[:k] + [f] + rest[k:]
         return []
     def modify(self, op, strict):
-        hit = [selected(f, op["m"], op["prio"], strict) for f in self.flows]
+        hit = [selected(f, op["m"], op["prio"], strict, self.variant) for f in self.flows]
         if not any(hit): return self.add(op)
         self.flows = [dict(f, acts=op["acts"]) if h else f for f, h in zip(self.flows, hit)]
         return []
     def delete(self, op, strict):
-        hit = [selected(f, op["m"], op["prio"], strict) and port_ok(f, op["out_port"]) for f in self.flows]
+        hit = [selected(f, op["m"], op["prio"], strict, self.variant) and port_ok(f, op["out_port"]) for f in self.flows]
         gone = [f for f, h in zip(self.flows, hit) if h]
         self.flows = [f for f, h in zip(self.flows, hit) if not h]
         return notifications(self.now, 2, gone)
@@ -185,7 +211,8 @@ class SpecTable:
                     self.flows = self.flows[:i] + [dict(f, pk=f["pk"] + 1, by=f["by"] + ln, tu=self.now)] + self.flows[i + 1:]
                     return []
             return [{"k": "pin", "port": op["port"]}]
-        fs = [f for f in self.flows if spec_subsumes(op["m"], f["m"]) and port_ok(f, op["out_port"])]
+        sub = plain_subsumes if self.variant == "stats-request-not-unwired" else (lambda a, b: v_subsumes(a, b, self.variant))
+        fs = [f for f in self.flows if sub(op["m"], f["m"]) and port_ok(f, op["out_port"])]
         if k == "fstats":
             return [{"k": "fs", "l": [[f["m"]] + dur(self.now, f) + [f["prio"], f["idle"], f["hard"], f["cookie"], f["pk"], f["by"], f["acts"]] for f in fs]}]
         return [{"k": "as", "pk": sum(f["pk"] for f in fs), "by": sum(f["by"] for f in fs), "n": len(fs)}]
@@ -225,9 +252,20 @@ def fm(cmd, m, prio=100, flags=0, out_port=NONE, acts=None, idle=0, hard=0, cook
             "acts": [list(a) for a in (ACTS[0] if acts is None else acts)]}
 
 # deviations of the unchanged code from the standard: inputs replayed from the `_defect` theorems of Properties/C04.lean
+M_NET8A = rec(but(DL_TYPE), sc=24, dl_type=0x0800, nw_src=0x0a090909)
+M_NET8B = rec(but(DL_TYPE), sc=24, dl_type=0x0800, nw_src=0x0a010101)
+M_ALL_HI = [0xffffffff] + [0] * 12
+M_ARP_Q = rec(but(DL_TYPE, TP_SRC), dl_type=0x0806)
 WITNESSES = {
-    # D23: in_port=1 and dl_type=0x0800 overlap (an IP packet on port 1) but neither subsumes the other
-    "overlap_partial": [fm(ADD, M_INPORT1, 100, CHECK_OVERLAP, cookie=1), fm(ADD, M_IP, 100, CHECK_OVERLAP, cookie=2)],
+    # partial_overlap_witness (D23, repaired by fixes/D23_check_overlap_true_overlap.diff): in_port=1 and dl_type=0x0800 overlap
+    # (an IP packet on port 1) but neither subsumes the other; the unrepaired code installs both
+    "partial_overlap_witness": [fm(ADD, M_INPORT1, 100, CHECK_OVERLAP, cookie=1), fm(ADD, M_IP, 100, CHECK_OVERLAP, cookie=2)],
+    # strict_hostbits_defect (C04-1): 10.9.9.9/8 and 10.1.1.1/8 are the same flow, not replaced
+    "strict_hostbits_defect": [fm(ADD, M_NET8A, 100, cookie=1), fm(ADD, M_NET8B, 100, cookie=2)],
+    # undefined_bits_defect (C04-2): match-all installed as 0xffffffff survives DELETE of OFPFW_ALL
+    "undefined_bits_defect": [fm(ADD, M_ALL_HI, 100, cookie=1), fm(DELETE, M_ALL, 0, cookie=2)],
+    # stats_unwired_defect (C04-3): aggregate stats for an ARP description with the ignored tp_src bit clear
+    "stats_unwired_defect": [fm(ADD, M_ARP, 100, cookie=1), {"op": "astats", "m": M_ARP_Q, "out_port": NONE}],
 }
 
 
@@ -237,10 +275,43 @@ class C04(Check):
     lean_targets = ["drv_c04"]
     driver = "drv_c04"
     theorems = []            # filled in below
-    anchors = [("pox/datapaths/switch.py", 215, 232), ("pox/datapaths/switch.py", 292, 310), ("pox/datapaths/switch.py", 747, 842),
-               ("pox/openflow/flow_table.py", 36, 65), ("pox/openflow/flow_table.py", 79, 127), ("pox/openflow/flow_table.py", 153, 186),
-               ("pox/openflow/flow_table.py", 224, 247), ("pox/openflow/flow_table.py", 259, 311), ("pox/openflow/flow_table.py", 329, 354)]
-    design_ref = "DESIGN.md §5 C04, §6 D23"
+    anchors = [("pox/datapaths/switch.py", 220, 232), ("pox/datapaths/switch.py", 296, 310), ("pox/datapaths/switch.py", 515, 522),
+               ("pox/datapaths/switch.py", 751, 842), ("pox/openflow/flow_table.py", 42, 65), ("pox/openflow/flow_table.py", 83, 127),
+               ("pox/openflow/flow_table.py", 157, 186), ("pox/openflow/flow_table.py", 225, 247), ("pox/openflow/flow_table.py", 260, 311),
+               ("pox/openflow/flow_table.py", 343, 354)]
+    design_ref = "DESIGN.md §5 C04, §6 D23 (repair proposed: fixes/D23_check_overlap_true_overlap.diff)"
+    technique = ("Lean 4 proof (invariants over all operation histories; per-operation refinement of the hand-written switch model to a transcription of the "
+                 "OpenFlow 1.0 §4.6/§4.7 flow table, lifted to histories by induction; bit-level lemmas tying ofp_match.__eq__ / matches_with_wildcards to "
+                 "'same packet set' / subsumption) + differential correspondence of the compiled model against the real SoftwareSwitch over OpenFlow bytes "
+                 "+ independent spec oracle")
+    level_text = ("Theorems (all states / all histories, no bounds): table_sorted (descending effective priority is invariant under every operation); no_duplicates "
+                  "(never two entries with equal match and priority); removed_once + "
+                  "departures_leave (each entry leaving by idle timeout, hard timeout or DELETE[_STRICT] that carries SEND_FLOW_REM yields exactly one flow-removed with that reason, "
+                  "its age and counters; ADD incl. replacement, MODIFY incl. modify-as-add, traffic, clock and stats yield none); expiry_window (a sweep removes an entry iff a deadline "
+                  "is strictly before now; only traffic refreshes the idle clock, nothing the hard clock); clock_inv; flowmod_refines / history_refines (under MatchOk on transmitted "
+                  "matches, the model's table and messages equal the standard's after every history: ADD replace/overlap/full/emergency, MODIFY[_STRICT] "
+                  "incl. acts-as-add, DELETE[_STRICT] with out_port filter, packet accounting, sweeps, flow/aggregate stats); selection_meaning, overlap_meaning (the match relations are the "
+                  "semantic ones); overlap_check_exact (CHECK_OVERLAP = the standard's overlap, after repair D23). Three `_defect` theorems witness what the hypotheses exclude "
+                  "(C04-1, C04-2, C04-3) and partial_overlap_witness is D23's input; each is replayed on the real switch on every run.")
+    level_note = ("Trusted: Lean kernel, axioms propext/Classical.choice/Quot.sound, the hand-written Model/FlowMod.lean (+ C03's Model/Match, Model/FlowTable), the transcriptions "
+                  "Spec/OF10Table.lean and Spec/OF10Match.lean, this harness (virtual clock, byte encoders/parsers, frame header extraction). The theorems are about the model; the per-run "
+                  "correspondence (exhaustive histories to length 3 over a 14-event alphabet, random histories to length 60, through real OpenFlow bytes) ties it to the code.")
+    trusted_base = ["model Model/FlowMod.lean hand-written from switch.py (_rx_flow_mod, _flow_mod_*, _handle_FlowTableModification, rx_packet) and flow_table.py; tied by this correspondence run",
+                    "Spec/OF10Table.lean: hand transcription of OpenFlow 1.0 §4.6 (flow-mod commands), §4.7 (timeouts, flow-removed), §5.3.5 (flow/aggregate stats); its Python twin in "
+                    "harness/c04.py is cross-checked against it on every case",
+                    "harness/swnet.py + poxenv.clock (virtual time.time in multiples of 1/8 s, exact in binary64); frames' header tuples read off the real parsed packet (C03's phdr_of)"]
+    assumptions = ["sweeps are explicit events (`FlowTable.remove_expired_entries()` called under the virtual clock); the recoco Timer that calls it every 2 s in ExpireMixin is not started",
+                   "flow-mods carry buffer_id = NO_BUFFER (buffered-packet release is C18) and one of the five defined commands (unknown commands are C13)",
+                   "frames arrive on existing, enabled ports and are complete IPv4/ARP/other frames without ECN bits (C03's `regular` / D36); what actions do to a frame is C12",
+                   "refinement hypotheses (MatchOk): wildcarded dl_type/nw_proto fields are zero on the wire (D38), ToS without ECN bits (D36), exact matches are IPv4 TCP/UDP/ICMP (D26), "
+                   "no address bits below the prefix (C04-1), no undefined wildcard bits (C04-2), stats-request matches canonical (C04-3)",
+                   "the model mirrors the code WITH the proposed repair fixes/D23_check_overlap_true_overlap.diff (CHECK_OVERLAP tests the standard's overlap, not mutual subsumption)",
+                   "the Spec resolves two choices the standard leaves open as the code does: among matching flows of equal rank the newest is hit; an entry past both deadlines is reported IDLE_TIMEOUT; "
+                   "emergency flow-mods are refused (cache unsupported) with the code's error codes; MODIFY does not touch the cookie",
+                   "ofp_action_output.pack() rewrites max_len to 0 for non-controller ports, so a flow-stats reply changes that field of the stored action; the harness uses max_len 0 on physical ports"]
+    rule = ("case = (max_entries, history over flow-mods {5 commands x 10 overlapping matches (two encodings of one flow, exact, prefixes) x 3 priorities x flags SEND_FLOW_REM/CHECK_OVERLAP/EMERG x "
+            "out_port filters x 7 action lists x idle/hard timeouts}, frames on ports, clock advances in 1/8 s, sweeps, flow/aggregate stats requests); corpus = defect witnesses + all histories of "
+            "length <= 3 over a 14-event alphabet + expiry-boundary / replace / table-full / emergency seeds; non-trivial = a flow-removed is written or the table holds >= 2 entries")
     coverage_cases = 400
 
     def setup(self):
@@ -337,10 +408,10 @@ class C04(Check):
     def model_request(self, case):
         return {"now": T0, "max": case["max"], "ops": self.model_ops(case)}
 
-    def spec_run(self, case):
-        t = SpecTable(T0, case["max"])
+    def spec_run(self, case, variant=None, upto=None):
+        t = SpecTable(T0, case["max"], variant)
         out = []
-        for op in case["ops"]:
+        for op in case["ops"][:upto]:
             if op["op"] == "pkt": o = t.step(op, self.phdr(op["frame"]), len(op["frame"]) // 2)
             else: o = t.step(op)
             out.append({"outs": o, "flows": t.view()})
@@ -357,54 +428,57 @@ class C04(Check):
                 "spec": self.spec_run(case)}
 
     # ---------------------------------------------------------------- the property, on the real code's observables
-    def oracle(self, case, obs):
-        spec = self.spec_run(case)
+    def compare(self, case, obs, spec):
+        """first step at which the real code's observables differ from the specification's `spec`: (step index, text) or None"""
         for n, (op, s, sp) in enumerate(zip(case["ops"], obs["steps"], spec)):
             where = "step %d %s" % (n, op["op"] if op["op"] != "fm" else "fm%d" % op["cmd"])
-            if s["st"] != "ok": return "%s: %s" % (where, s["st"])
+            if s["st"] != "ok": return n, "%s: %s" % (where, s["st"])
             # installed entries, their actions, clocks and counters = the specification's table
             got, want = s["table"], sp["flows"]
             if len(got) != len(want):
-                return "%s: table has %d entries, specification %d%s" % (where, len(got), len(want), self._why(op, s, sp))
+                return n, "%s: table has %d entries, specification %d" % (where, len(got), len(want))
             for i, (g, w) in enumerate(zip(got, want)):
                 if g[0] != w[0] or g[2][1:] != w[2][1:] or g[3:] != w[3:]:
-                    return "%s: entry %d differs from the specification's (prio/fields/actions/cookie/flags/timeouts/clocks/counters)%s" % (where, i, self._why(op, s, sp))
+                    return n, "%s: entry %d differs from the specification's (prio/fields/actions/cookie/flags/timeouts/clocks/counters)" % (where, i)
             eff = [g[1] for g in got]
-            if any(a < b for a, b in zip(eff, eff[1:])): return "%s: table not sorted by effective priority" % where
+            if any(a < b for a, b in zip(eff, eff[1:])): return n, "%s: table not sorted by effective priority" % where
             # messages: exactly the specification's, flow-removed matched on every field, its match up to encoding
             go, wo = s["outs"], sp["outs"]
             if len(go) != len(wo) or [o["k"] for o in go] != [o["k"] for o in wo]:
-                return "%s: messages %s, specification %s%s" % (where, [self._brief(o) for o in go], [self._brief(o) for o in wo], self._why(op, s, sp))
+                return n, "%s: messages %s, specification %s" % (where, [self._brief(o) for o in go], [self._brief(o) for o in wo])
             for g, w in zip(go, wo):
                 if g["k"] == "fr":
                     if {k: v for k, v in g.items() if k != "m"} != {k: v for k, v in w.items() if k != "m"}:
-                        return "%s: flow-removed fields differ: %s vs %s" % (where, self._brief(g), self._brief(w))
-                    if not spec_identical(g["m"], w["m"]): return "%s: flow-removed carries a different match" % where
+                        return n, "%s: flow-removed fields differ: %s vs %s" % (where, self._brief(g), self._brief(w))
+                    if not spec_identical(g["m"], w["m"]): return n, "%s: flow-removed carries a different match" % where
                 elif g["k"] == "fs":
-                    if len(g["l"]) != len(w["l"]): return "%s: flow-stats has %d flows, specification %d" % (where, len(g["l"]), len(w["l"]))
+                    if len(g["l"]) != len(w["l"]): return n, "%s: flow-stats has %d flows, specification %d" % (where, len(g["l"]), len(w["l"]))
                     for a, b in zip(g["l"], w["l"]):
-                        if a[1:] != b[1:] or not spec_identical(a[0], b[0]): return "%s: flow-stats entry differs" % where
+                        if a[1:] != b[1:] or not spec_identical(a[0], b[0]): return n, "%s: flow-stats entry differs" % where
                 elif g != w:
-                    return "%s: message %s, specification %s%s" % (where, self._brief(g), self._brief(w), self._why(op, s, sp))
+                    return n, "%s: message %s, specification %s" % (where, self._brief(g), self._brief(w))
         return None
+
+    def oracle(self, case, obs):
+        if case.get("corr_only"): return None          # model-vs-code tie on a witness whose oracle failure is reported by its twin case
+        r = self.compare(case, obs, self.spec_run(case))
+        if r is None: return None
+        n, text = r
+        # classification (for finding_key only): is the history up to the failing step exactly what one known deviation predicts?
+        for v in VARIANTS:
+            if self.compare({"max": case["max"], "ops": case["ops"][:n + 1]}, {"steps": obs["steps"][:n + 1]},
+                            self.spec_run(case, v, n + 1)) is None:
+                return text + " why=" + v
+        return text
 
     def _brief(self, o):
         if o["k"] == "fr": return "fr(cookie=%d,reason=%d,dur=%d.%09d,pk=%d,by=%d)" % (o["cookie"], o["reason"], o["ds"], o["dn"], o["pk"], o["by"])
         if o["k"] == "err": return "err(%d,%d)" % (o["t"], o["c"])
         return o["k"]
 
-    def _why(self, op, s, sp):
-        """classify a disagreement with the standard by the known deviation whose input class it is in (for finding_key only)"""
-        if op["op"] == "fm" and op["flags"] & CHECK_OVERLAP and not op["flags"] & EMERG:
-            code_err = any(o["k"] == "err" and o["c"] == 1 for o in s["outs"])
-            spec_err = any(o["k"] == "err" and o["c"] == 1 for o in sp["outs"])
-            if spec_err and not code_err: return " why=overlap-not-detected"
-            if code_err and not spec_err: return " why=overlap-spurious"
-        return ""
-
     def finding_key(self, case, obs, failure):
         m = re.search(r"why=([\w-]+)", failure)
-        if m: return "check-overlap:" + m.group(1)
+        if m: return "deviation:" + m.group(1)
         f = re.sub(r"step \d+ ", "", failure)
         return re.sub(r"\d+", "N", f)[:120]
 
@@ -446,6 +520,7 @@ class C04(Check):
         cases = []
         for name, ops in sorted(WITNESSES.items()):
             cases.append({"max": 100, "ops": copy.deepcopy(ops), "tag": name})
+            cases.append({"max": 100, "ops": copy.deepcopy(ops), "tag": name, "corr_only": True})
         A = self.small_alphabet()
         for L in (1, 2, 3):
             for ops in itertools.product(A, repeat=L):
@@ -486,11 +561,18 @@ class C04(Check):
         return {"op": rng.choice(["fstats", "astats"]), "m": rng.choice([M_ALL, M_ALL, M_IP, M_NET8, M_INPORT1]), "out_port": rng.choice([NONE, NONE, 2, 3])}
 
     def generate(self, rng, tier):
-        n = 260 if tier == "quick" else 6000
+        if tier == "thorough":            # all histories of length 4 over the 14-event alphabet
+            A = self.small_alphabet()
+            for ops in itertools.product(A, repeat=4):
+                yield {"max": 100, "ops": [copy.deepcopy(o) for o in ops]}
+        n = 1500 if tier == "quick" else 20000
         for _ in range(n):
             L = rng.choice([5, 12, 30, 60, rng.randint(1, 60)])
-            yield {"max": rng.choice([100, 100, 100, 2, 3, 5]), "ops": [self.rand_op(rng, tier) for _ in range(L)]}
+            case = {"max": rng.choice([100, 100, 100, 2, 3, 5]), "ops": [self.rand_op(rng, tier) for _ in range(L)]}
+            yield case
 
 
-C04.theorems = []
+C04.theorems = ["Pox.C04." + t for t in (
+    "table_sorted", "table_sorted_init", "no_duplicates", "removed_once", "departures_leave", "expiry_window", "clock_inv", "flowmod_refines", "history_refines",
+    "selection_meaning", "overlap_meaning", "overlap_check_exact", "partial_overlap_witness", "strict_hostbits_defect", "undefined_bits_defect", "stats_unwired_defect")]
 CHECK = C04
